@@ -23,6 +23,7 @@ pub fn def() -> CheckDef {
         cpu_limit_s: 30,
         fault_kinds: "none (seam-level write counter is the oracle)",
         count_subruns: false,
+        expect_probes: &[],
     }
 }
 
